@@ -1118,7 +1118,13 @@ class TypeshedFinder:
                     val = self._parse_expr(keyword.value, module)
                     if isinstance(val, KnownValue) and isinstance(val.val, bool):
                         total = val.val
-        attrs = self._get_all_attributes_from_info(info, module)
+        attr_set = self._get_all_attributes_from_info(info, module)
+        # Keep the keys in the order in which the stub defines them, so that the
+        # resulting TypedDict does not depend on set iteration order.
+        if info.child_nodes is not None:
+            attrs = [attr for attr in info.child_nodes if attr in attr_set]
+        else:
+            attrs = sorted(attr_set)
         fields = [
             self._get_attribute_from_info(
                 info, module, attr, on_class=True, is_typeddict=True
